@@ -57,6 +57,7 @@ type Ctx struct {
 	golden      int          // cases cross-checked in the kernel
 	Notes       []string
 	Boost       bool
+	Lookahead   int // in replay mode, also run a case when one of the next Lookahead cases is the recorded one (it depends on this one having run)
 	Hist        map[string]map[string]int
 	replay      bool
 }
@@ -125,7 +126,7 @@ func (c *Ctx) Count(hist, key string) {
 // Wanted reports whether the case with the next id should be executed (always
 // true except in replay mode, where only the recorded id runs).
 func (c *Ctx) Wanted() bool {
-	return c.ReplayID < 0 || c.ReplayID == len(c.cases)
+	return c.ReplayID < 0 || (c.ReplayID >= len(c.cases) && c.ReplayID <= len(c.cases)+c.Lookahead)
 }
 
 type knownFinding struct {
